@@ -359,6 +359,15 @@ def getitem(I, a, idx):
 
 def setitem(I, a, idx, val):
     I.ctx.trust(T_NUMPY)
+    if a.mask is not None and not getattr(a.mask, '_in_setitem', False) and not (isinstance(idx, SArr) and idx.kind == 'b'):
+        # assignment into a MASKED array also assigns the mask: the value's mask, or "not masked" for plain values
+        # (numpy.ma.MaskedArray.__setitem__; a plain ndarray target keeps data only)
+        vm = val.mask.frozen() if isinstance(val, SArr) and val.mask is not None else False
+        a.mask._in_setitem = True
+        try:
+            setitem(I, a.mask, idx, vm)
+        finally:
+            a.mask._in_setitem = False
     if isinstance(idx, SArr) and idx.kind == 'b':
         m = idx
         if isinstance(val, SArr):
@@ -1324,6 +1333,27 @@ def _masked_where(I, args, kw):
     cc = broadcast_to(c.frozen(), a.shape) if isinstance(c, SArr) else SArr(a.shape, lambda q: c, 'b')
     r.mask = cc if a.mask is None else elementwise(I, sym.Or, cc, a.mask, 'b')
     return r
+
+
+def _masked_cmp(name, pred, doc):
+    def fn(I, args, kw):
+        x, v = _as_arr(I, args[0]).frozen(), args[1]
+        if kw.get('copy', True) is not True:
+            raise Unsupported('numpy.ma.%s(copy=False)' % name)
+        I.ctx.trust('numpy.ma.%s: a copy masked additionally where %s' % (name, doc))
+        r = SArr(x.shape, lambda q: x.get(q), x.kind, tag=name)
+        cond = SArr(x.shape, lambda q: pred(x.get(q), v), 'b', tag=name + '-cond')
+        r.mask = cond if x.mask is None else elementwise(I, sym.Or, cond, x.mask, 'b')
+        return r
+    models._REG['numpy.ma.' + name] = Builtin('numpy.ma.' + name, fn, T_NUMPY)
+
+
+_masked_cmp('masked_greater', sym.gt, 'x > value')
+_masked_cmp('masked_greater_equal', sym.ge, 'x >= value')
+_masked_cmp('masked_less', sym.lt, 'x < value')
+_masked_cmp('masked_less_equal', sym.le, 'x <= value')
+_masked_cmp('masked_equal', sym.eq, 'x == value')
+_masked_cmp('masked_not_equal', sym.ne, 'x != value')
 
 
 @_np('ma.getmaskarray')
